@@ -11,6 +11,7 @@ import os
 import typing as t
 
 from .core import Ctx
+from . import astq
 from .emit import EXPR_WRAP
 from .emit import EmitModel
 from .emit import Hole
@@ -213,6 +214,31 @@ def c01_skeleton_rules(ctx: Ctx) -> None:
                     continue
                 ctx.ok(f"{gen}:{entry}:{total}", detail={"entry": entry, "flags": short_flags(p, 4), "skeleton": sk.text[:200]} if total % 997 == 1 else None, trivial=False)
     ctx.floor("skeletons parsed", total, 3000)
+    # a skeleton that only parses inside its wrapper context (EXPR_WRAP: a bare `a:b` slice is
+    # valid directly inside brackets only) obliges the parser to produce that node in that
+    # position only; a value of parse_subscribed() (which may be a Slice) that is packed into
+    # another node (`x[1:2, 3]` -> Tuple) is then emitted as `(1:2, 3)`
+    res0 = get_paths(ctx, None, "compiler:CodeGenerator")
+    standalone = True
+    for p, sk in res0.get("visit_Slice", []):
+        if p.outcome != "normal":
+            continue
+        try:
+            ast.parse("(" + sk.text.strip() + ")", mode="eval")
+        except SyntaxError:
+            standalone = False
+    psub = repo.func("parser:Parser.parse_subscript")
+    carriers: set[str] = set()
+    for n_ in ast.walk(psub.node):
+        if isinstance(n_, ast.Assign) and isinstance(n_.value, ast.Call) and astq.callee(n_.value) == "self.parse_subscribed":
+            carriers |= {t_.id for t_ in n_.targets if isinstance(t_, ast.Name)}
+        if isinstance(n_, ast.Call) and isinstance(n_.func, ast.Attribute) and n_.func.attr in ("append", "extend") and isinstance(n_.func.value, ast.Name) and any(astq.callee(c) == "self.parse_subscribed" for c in astq.calls(n_)):
+            carriers.add(n_.func.value.id)
+    packed = [c for c in astq.calls(psub.node) if astq.callee(c).startswith("nodes.") and astq.callee(c) != "nodes.Getitem" and any(isinstance(a, ast.Name) and a.id in carriers for a in c.args)]
+    ctx.need(bool(carriers), "parse_subscript: the values of parse_subscribed() were not found")
+    ctx.check(standalone or not packed, "fragment-context:visit_Slice", "compiler:CodeGenerator.visit_Slice", "slice emitted in a form that is only valid directly inside brackets",
+              f"visit_Slice writes the bare `start:stop:step` form, but parse_subscript packs the values of parse_subscribed() into {[astq.callee(c) for c in packed]}: `{{{{ x[1:2, 3] }}}}` is compiled to `environment.getitem(x, (1:2, 3))` and compile() raises builtins.SyntaxError",
+              "src/jinja2/compiler.py", detail={"standalone": standalone, "packed_into": [astq.callee(c) for c in packed]})
     ctx.notes.append(f"R7: {total} skeletons, {nerr} unparseable")
 
     ctx.rule("R9", "template-controlled text reaches the generated source only quoted (repr) or behind a generator prefix / identifier check; raw positions are the reviewed extension-only nodes")
